@@ -620,7 +620,34 @@ def check_default_shape(ctx, rule='R-DEFSHAPE'):
     ctx.floor('formats with a default grid shape in both readers', n, 2)
 
 
+def check_squeeze_index(ctx, rule='R-SQUEEZEIDX'):
+    """squeeze() without an axis drops *every* axis of length one, so the rank of its result depends on the file (one step, one row,
+    one column, one layer).  Indexing that result with a fixed number of positions is right only for the shapes the author had in
+    mind; restoring the axes by name (reshape with the dimension lengths) is right for all."""
+    ctx.rule(rule, 'record readers: the result of squeeze() (rank depends on which dimensions have length 1) is not indexed with a fixed number of positions')
+    n = 0
+    for m in ctx.src.all_modules():
+        if not (m.relpath.startswith(CAMX) and m.relpath.endswith('/Read.py')):
+            continue
+        for q, fn in sorted(m.functions.items()):
+            if '<locals>' in q and q.count('<locals>') > 1:
+                continue
+            for x in ast.walk(fn):
+                if isinstance(x, ast.Call) and isinstance(x.func, ast.Attribute) and x.func.attr == 'squeeze' and not x.args and not x.keywords:
+                    n += 1
+            for x in ast.walk(fn):
+                if isinstance(x, ast.Subscript) and isinstance(x.value, ast.Call) and isinstance(x.value.func, ast.Attribute) and x.value.func.attr == 'squeeze' \
+                        and not x.value.args and not x.value.keywords and isinstance(x.slice, ast.Tuple) and len(x.slice.elts) > 1:
+                    ctx.violation(Finding(rule, m.relpath, q, api.stmt_of(x), 'the squeezed array is indexed with %d positions (%s): squeeze() also drops a time, row or column axis of length one, so for a file with a '
+                                          'single step, row or column the variable raises IndexError (or gets the wrong axes) while the memory-mapped reader presents it' % (len(x.slice.elts), norm(x.slice)[:40])),
+                                  oid='%s:%s' % (q, norm(x.slice)[:30]))
+    if not any(o['rule'] == rule and o['status'] == 'violated' for o in ctx.obligations):
+        ctx.ok(rule, 'squeeze sites', 'src/PseudoNetCDF/%s*/Read.py' % CAMX, '%d squeeze() calls, none indexed by position' % n)
+    ctx.count('squeeze() calls in the record readers', n)
+
+
 def run(ctx):
+    check_squeeze_index(ctx)
     check_scan_siblings(ctx)
     check_default_shape(ctx)
     check_step_length(ctx)
